@@ -216,6 +216,10 @@ func runC01(e *core.Env) error {
 func transferMakeTx(salt, num, idx uint64, tx *simnode.Tx) {
 	sig := transferEvent.SignatureHash()
 	simnode.DefaultMakeTx(salt, num, idx, tx)
+	if idx >= 2 {
+		tx.Logs = nil // a transaction without events: its receipt still carries status, gas and contract address
+		return
+	}
 	if len(tx.Logs) > 0 {
 		l := &tx.Logs[0]
 		l.Topics = [][]byte{sig, padAddr(simnode.Derive("from", salt, num, idx)[:20]), padAddr(simnode.Derive("to", salt, num, idx)[:20])}
